@@ -13,17 +13,21 @@ DRIVER = "drivers/C11.lean"
 SPEC_DRIVER = "drivers/SpecC11.lean"
 DRIVER_MODULES = ["BioCantor.Driver.Main", "BioCantor.Driver.Gff"]
 SPEC_DRIVER_MODULES = ["BioCantor.Driver.Main", "BioCantor.Driver.SpecGff"]
-GEN_NEEDS = ["gffEncodingMap", "gffEncodingMapWithComma"]
+GEN_NEEDS = ["gffEncodingMap", "gffEncodingMapWithComma", "gff3_GFF_SOURCE", "gff3_NULL_COLUMN",
+             "gff3_ATTRIBUTE_SEPARATOR", "gff3_GFF3Headers", "gff3__GFF3ReservedQualifiers",
+             "gff3_BioCantorGFF3ReservedQualifiers", "gff3_BioCantorQualifiers", "gff3_BioCantorFeatureTypes",
+             "biotype_UNKNOWN_BIOTYPE", "CDSFrame_to_phase", "CDSFrame_shift", "Strand_to_symbol"]
 MODEL_OPS = {"esckey", "escval", "attrs", "row", "rows", "gfftext"}
 ERR_CLASS = True
 RULE = ("one case = one operation: an escape call, one GFFAttributes/GFFRow rendering, one export of an explicit-GUID "
-        "collection (`rows`), or one generated collection taken through export -> independent checker -> library "
+        "collection (`rows`), one whole file of 1..3 collections (`gfftext`: header / pragma / FASTA glue), or one generated collection taken through export -> independent checker -> library "
         "parser -> re-export twice (`coll`).  Non-trivial: the string contains a character that must be escaped / "
         "the attributes hold >= 1 qualifier / the export has >= 4 feature lines / any `coll` case that exported; "
         "distinct = distinct operation lines")
 EXHAUSTIVE_NOTE = ""
-TRUSTED = ["Model/Gff.lean is hand-written; tied to rows.py / gene/*.py / collections.py by this run's correspondence "
-           "(escape tables are the regenerated Gen.gffEncodingMap / Gen.gffEncodingMapWithComma)",
+TRUSTED = ["Model/Gff.lean is hand-written; tied to rows.py / gene/*.py / collections.py / writer.py by this run's "
+           "correspondence (escape tables are the regenerated Gen.gffEncodingMap*; every string constant of the model is "
+           "proved equal to the regenerated Gen.gff3_* / Gen.biotype_UNKNOWN_BIOTYPE in T0_constants_tie)",
            "harness/gff_check.py: the independent Python GFF3 reader / reference decoder (mirror of Spec/Gff.lean)",
            "gffutils (third-party reader behind parse_standard_gff3) and harness/shims.py (marshmallow post_dump) on "
            "the parse leg"]
